@@ -28,7 +28,12 @@ C_DRIVER = r'''
 #include "blf.h"
 #include "AbstractFile.c"
 #include "ObjectHeaderBase.c"
+/* make_shared<LogContainer>() yields ONE owner: the executable shared_ptr model (vb_models.h) counts from the ghost
+ * field vb_refcnt, which the extracted constructor does not know about */
+#define LogContainer_new LogContainer_new__raw
 #include "LogContainer.c"
+#undef LogContainer_new
+struct LogContainer *LogContainer_new(void) { struct LogContainer *p = LogContainer_new__raw(); if (p) p->vb_refcnt = 1; return p; }
 #include "UncompressedFile.c"
 #include "ObjectQueue.c"
 #include "vb_native.c"
